@@ -213,13 +213,23 @@ def catalogue(py4hw, quick, pol=None):
                    lambda c: [c['w'], 1], [dict(w=w) for w in (1, 2, 3, 8, 33)]))
 
     def concat(cls, mname, sname):
+        # 'ix' (optional): slot -> index of the DISTINCT wire that fills it, so one wire can fill several slots (sign replication [s,s,s,s,x],
+        # byte duplication [a,a], [a,b,a]); the inputs of the case are the distinct wires
+        def ix(c): return c.get('ix', list(range(len(c['ws']))))
+        def dws(c):
+            d = {}
+            for slot, k in enumerate(ix(c)): d[k] = c['ws'][slot]
+            return [d[k] for k in sorted(d)]
         def build(hw, c):
-            ins = wires(hw, 'i', c['ws']); r = hw.wire('r', c['wr']); getattr(L, cls)(hw, 'dut', ins, r); return ins, [r]
-        def pairs(c): return '[' + '; '.join('(%d, x%d)' % (w, i) for i, w in enumerate(c['ws'])) + ']'
+            dist = wires(hw, 'i', dws(c)); ins = [dist[k] for k in ix(c)]
+            r = hw.wire('r', c['wr']); getattr(L, cls)(hw, 'dut', ins, r); return dist, [r]
+        def pairs(c): return '[' + '; '.join('(%d, x%d)' % (w, k) for w, k in zip(c['ws'], ix(c))) + ']'
         wss = [[1], [3], [1, 1], [1, 2], [2, 1], [3, 3], [1, 2, 3], [3, 1, 2], [1, 1, 1, 1], [2, 2, 2, 2, 2], [1, 3, 1, 2, 1], [8, 23, 1], [1, 8, 23], [16, 16, 16, 16]]
         cfgs = [dict(ws=ws, wr=sum(ws)) for ws in wss] + [dict(ws=[1, 2], wr=5), dict(ws=[2, 1, 1], wr=7)] + [dict(ws=ws, wr=sum(ws) + d) for ws in wss[:9] for d in (1, 4)] + [dict(ws=[8, 23, 1], wr=64)]
-        B.append(Block(cls, build, lambda c: lam(len(c['ws']), '[%s %d %s]' % (mname, c['wr'], pairs(c))),
-                       lambda c: lam(len(c['ws']), '[%s %s mod 2 ^ %d]' % (sname, pairs(c), c['wr'])), lambda c: c['ws'], cfgs))
+        cfgs += [dict(ws=[1, 1, 1, 1, 4], ix=[0, 0, 0, 0, 1], wr=8), dict(ws=[4, 4], ix=[0, 0], wr=8), dict(ws=[2, 3, 2], ix=[0, 1, 0], wr=7),
+                 dict(ws=[3, 1, 1, 1], ix=[1, 0, 0, 0], wr=6), dict(ws=[8, 8, 8], ix=[0, 0, 0], wr=32), dict(ws=[1, 2, 1, 2], ix=[0, 1, 0, 1], wr=6)]
+        B.append(Block(cls, build, lambda c: lam(len(dws(c)), '[%s %d %s]' % (mname, c['wr'], pairs(c))),
+                       lambda c: lam(len(dws(c)), '[%s %s mod 2 ^ %d]' % (sname, pairs(c), c['wr'])), dws, cfgs))
     concat('ConcatenateMSBF', 'ConcatenateMSBF_m', 'msbf_spec')
     concat('ConcatenateLSBF', 'ConcatenateLSBF_m', 'lsbf_spec')
 
